@@ -155,9 +155,11 @@ def __parse_unit_string_to_list(unit_string: str) -> List[Union[str, List]]:
     # as "m^(1/2)", an operator, a bracket enclosed expression, or the "1" that stands for an
     # empty numerator at the very beginning of a fraction such as "1/s"
     power_pattern = r"\^-?[0-9]+|\^\(-?[0-9]+/[0-9]+\)"
+    # the only brackets allowed inside a bracket enclosed expression are those of a fractional power
+    bracket_pattern = r"\((?:\^\(-?[0-9]+/[0-9]+\)|[^()])*\)"
     token_pattern = re.compile(
-        r"^1(?=/)|[a-zA-Z]+({})?|/|\*|\(.*?\)".format(power_pattern))
-    bracket_enclosed_expression_pattern = re.compile(r"\(.*?\)")
+        r"^1(?=/)|[a-zA-Z]+({})?|/|\*|{}".format(power_pattern, bracket_pattern))
+    bracket_enclosed_expression_pattern = re.compile(bracket_pattern)
     unit_with_exponent_pattern = re.compile(r"[a-zA-Z]+({})".format(power_pattern))
     operator_pattern = re.compile(r"[/*]")
 
